@@ -8,12 +8,12 @@ LEVEL = "exploration"
 RULE = (
     "case = (sql, dialect, rule selection, rule options) from dialect fixtures, seeded mutants (partly unparsable on purpose), the repo's rule yaml "
     "examples with their own configs, and lintable Jinja templates, run through Linter.lint_string(fix=True) twice (second pass on the fixed text) with "
-    "all rules, default options and a non-default option bundle; monitor = wrapper on BaseRule._log_critical_errors (the seam called from crawl's "
+    "all rules, default options and a non-default option bundle; plus a lint-only pass (all rules, default options) over every dialect fixture <= 12 kB and one mutant each; monitor = wrapper on BaseRule._log_critical_errors (the seam called from crawl's "
     "exception handler) + scan of violation descriptions; distinct = content hash of (dialect, source, ruleset, options); non-trivial = at least one rule crawled a tree"
 )
 ASSUMPTIONS = ["an exception in a rule is always routed through BaseRule.crawl's handler (which calls _log_critical_errors)"]
 TIMEOUT = {"quick": 400, "thorough": 900}
-MIN_NONTRIVIAL = {"quick": 60, "thorough": 1000}
+MIN_NONTRIVIAL = {"quick": 300, "thorough": 2000}
 REQUIRED_COUNTERS = ["violations_scanned"]
 
 OPTIONS = {
@@ -65,11 +65,52 @@ def universe():
     return out
 
 
+def lint_universe():
+    """Cheap lint-only pass over EVERY dialect fixture (<= 12 kB) and mutant: wide reach for rule crashes."""
+    from vfw.props import common
+
+    out = []
+    for c in common.fx_cases(12000) + common.mx_cases(1, 6000, start=90):
+        c = dict(c)
+        c["rules"] = "all"
+        c["lint_only"] = True
+        c["id"] += "|lint"
+        c["stratum"] += "|lint"
+        out.append(c)
+    return out
+
+
 def cases(tier, seed):
-    return stratified_sample(universe(), lambda c: c.get("stratum", ""), 240 if tier == "quick" else 0, seed)
+    if tier == "quick":
+        return stratified_sample(universe(), lambda c: c.get("stratum", ""), 220, seed) + stratified_sample(lint_universe(), lambda c: c.get("stratum", ""), 900, seed)
+    return universe() + lint_universe()
+
+
+def run_lint_only(case):
+    from vfw.core import sf
+
+    fixcase.install_rule_monitor()
+    r = fixcase.common.resolve(case)
+    lnt = sf.make_linter(r["dialect"], r["templater"])
+    fixcase._critical["n"] = 0
+    try:
+        linted = lnt.lint_string(r["source"])
+    except Exception as e:
+        return {"status": "skip", "counters": {"lint_raised": 1}, "detail": repr(e)[:200]}
+    viols = linted.get_violations(filter_ignore=False, filter_warning=False)
+    fails = []
+    bad = [v for v in viols if (v.desc() or "").startswith("Unexpected exception")]
+    if bad:
+        fails.append({"sig": f"unexpected_exception:{bad[0].rule_code()}", "detail": {"desc": bad[0].desc()[:300], "line": bad[0].line_no}})
+    elif fixcase._critical["n"]:
+        fails.append({"sig": "rule_handler_entered", "detail": {"n": fixcase._critical["n"], "last": fixcase._critical.get("last")}})
+    return {"status": "fail" if fails else "pass", "failures": fails, "counters": {"violations_scanned": len(viols), "lint_only_cases": 1},
+            "key": fixcase.common.text_key(r) + "|lint" if linted.tree is not None else None}
 
 
 def run_case(case):
+    if case.get("lint_only"):
+        return run_lint_only(case)
     r, lnt, obs = fixcase.observe(case, second_pass=True)
     if lnt is None:
         return {"status": "harness_error", "detail": obs}
